@@ -1,3 +1,4 @@
+mod ledger;
 mod locks;
 mod simkit;
 mod store;
@@ -10,6 +11,11 @@ use std::path::PathBuf;
 macro_rules! dispatch {
     ($id:expr, $w:ident => $body:expr) => {
         match $id {
+            "C02" | "C03" | "C04" | "C05" | "C11" => {
+                let lw = ledger::LedgerCheck { id: match $id { "C02" => "C02", "C03" => "C03", "C04" => "C04", "C05" => "C05", _ => "C11" } };
+                let $w = &lw;
+                $body
+            }
             "C12" => { let $w = &track::C12; $body }
             "C13" => { let $w = &locks::C13; $body }
             "C14" => { let $w = &store::c14::C14; $body }
@@ -25,7 +31,7 @@ macro_rules! dispatch {
     };
 }
 
-pub const ALL: &[&str] = &["C12", "C13", "C14", "C15", "C17", "C18", "C19"];
+pub const ALL: &[&str] = &["C02", "C03", "C04", "C05", "C11", "C12", "C13", "C14", "C15", "C17", "C18", "C19"];
 
 fn usage() -> i32 {
     eprintln!("usage: verif-sim check <ID> [quick|thorough] | replay <file> | selftest [runs] | list");
